@@ -47,8 +47,9 @@ class Rigol_Dg4102(QMI_Instrument):
     @rpc_method
     def open(self) -> None:
         _logger.info("[%s] Opening connection to instrument", self._name)
-        super().open()
+        self._check_is_closed()
         self._transport.open()
+        super().open()
 
     @rpc_method
     def close(self) -> None:
